@@ -149,6 +149,6 @@ func c16AltLeg(c *core.Ctx) {
 	core.RunLeg(c, core.Leg[c16AltCase]{
 		Name: "Ka", Kind: "oracle(set algebra of compiler-built classes)",
 		Rule: "three single-character atoms A, B, C (a rune, a range, \\d \\w \\s and their negations, \\p{..}/\\P{..}; half of the cases start from a shorthand class) under default / RE2 / ECMAScript options; ^(?:A|B)$ is compiled first, then ^(?:A|C)$, then both merges in one pattern; every rune of a fixed list of ~170 interesting runes plus the range endpoints ±1 must match exactly when the union of the parts (recomputed from Go's unicode tables) contains it — the first pattern is probed AFTER the second was compiled; non-trivial = all",
-		N: c.N(400, 20000), Gen: c16AltGen, Check: c16AltCheck, Batch: 100,
+		N:    c.N(400, 20000), Gen: c16AltGen, Check: c16AltCheck, Batch: 100,
 	})
 }
